@@ -262,6 +262,7 @@ impl<'s, M: Matcher, S: Sink> MultiLine<'s, M, S> {
     fn sink_matched_inverted(&mut self) -> Result<bool, S::Error> {
         assert!(self.config.invert_match);
 
+        let invert_start = self.core.pos();
         let invert_match = match self.find()? {
             None => {
                 let range = Range::new(self.core.pos(), self.slice.len());
@@ -269,13 +270,32 @@ impl<'s, M: Matcher, S: Sink> MultiLine<'s, M, S> {
                 range
             }
             Some(mat) => {
-                let line = lines::locate(
+                let mut line = lines::locate(
                     self.slice,
                     self.config.line_term.as_byte(),
                     mat,
                 );
-                let range = Range::new(self.core.pos(), line.start());
-                self.advance(&line);
+                // Subsequent matches that begin on the lines found so far
+                // may extend on to following lines, which then aren't
+                // non-matching lines either.
+                self.advance(&mat);
+                while self.core.pos() < line.end() {
+                    let next = match self.find()? {
+                        Some(next) if next.start() < line.end() => next,
+                        _ => break,
+                    };
+                    let next_line = lines::locate(
+                        self.slice,
+                        self.config.line_term.as_byte(),
+                        next,
+                    );
+                    if next_line.end() > line.end() {
+                        line = line.with_end(next_line.end());
+                    }
+                    self.advance(&next);
+                }
+                let range = Range::new(invert_start, line.start());
+                self.core.set_pos(line.end());
                 range
             }
         };
